@@ -124,8 +124,15 @@ def run(names, tier: str, scale: float) -> int:
             if not apply_patch(copy, os.path.join(dest, "patch.diff")):
                 print("%-10s patch no longer applies" % n)
                 continue
-            rc, sigs, dt, _ = run_check(copy, meta.get("property_checked_by", meta["property"]), tier, scale)
-            meta["check_%s" % tier] = {"rc": rc, "signatures": sigs, "seconds": dt}
+            owner = meta.get("property_checked_by", meta["property"])
+            rc, sigs, dt, _ = run_check(copy, owner, tier, scale)
+            used = scale
+            if rc != 1 and scale < 1.0:
+                # a reduced budget explores a prefix of what the full budget explores (same shard seeds), so a detection at a reduced
+                # scale stands for the full check; a miss does not, and is repeated with the full budget
+                rc, sigs, dt2, _ = run_check(copy, owner, tier, 1.0)
+                dt, used = dt + dt2, 1.0
+            meta["check_%s" % tier] = {"rc": rc, "signatures": sigs, "seconds": dt, "scale": used}
             json.dump(meta, open(os.path.join(dest, "meta.json"), "w"), indent=1)
             print("%-10s rc=%d %6.1fs %s" % (n, rc, dt, "; ".join(sigs)[:170]))
             missed += rc != 1
